@@ -186,14 +186,17 @@ class _Marshaller:
     dispatch[int] = dump_int
 
     def dump_long(self, x):
-        if self.py2_depth and not isinstance(x, LongTypeForPython3):
-            # Inside a Python 2 code object a plain int must stay an
-            # int: TYPE_LONG would load as a Python 2 long.
+        if not isinstance(x, LongTypeForPython3):
+            # As in marshal.c, an int that fits in 32 bits is a TYPE_INT.
+            # The reader then hands out the interpreter's own small
+            # integers; a TYPE_LONG always makes a new object. Inside a
+            # Python 2 code object a plain int must also stay an int:
+            # TYPE_LONG would load as a Python 2 long.
             if -0x80000000 <= x < 0x80000000:
                 self._write(TYPE_INT)
                 self.w_long(x)
                 return
-            if -0x8000000000000000 <= x < 0x8000000000000000:
+            if self.py2_depth and -0x8000000000000000 <= x < 0x8000000000000000:
                 self._write(TYPE_INT64)
                 self.w_long64(x)
                 return
